@@ -115,6 +115,7 @@ Proof.
     { eapply MI_head; [exact HMI|exact Heql|]. right. simpl. unfold jfs. rewrite Ej, Nat.eqb_refl. reflexivity. }
     congruence.
   - destruct (dcb s d); simpl in E; inversion E.
+  - destruct (dcb s d); simpl in E; inversion E.
 Qed.
 
 Lemma D4_reach s : reachable_from step init s -> D4 s.
@@ -207,6 +208,7 @@ Proof.
       apply Nat.eqb_neq in Eu. congruence.
     + assert (Hd' : dq < ndel s) by lia. rewrite upd_lt in Edq by exact Hd'. rewrite upd_lt by exact Hd'.
       apply (HF u jq Hin dq Hd' Edq).
+  - destruct (dcb s d); simpl in Hin; [destruct Hin as [E|[E|[]]]; discriminate E|destruct Hin].
   - destruct (dcb s d); simpl in Hin; [destruct Hin as [E|[E|[]]]; discriminate E|destruct Hin].
 Qed.
 
